@@ -15,6 +15,16 @@ Documented client coercions (statement of C06):
     [time, [...], ...]         -> blob holding the encoded bundle
     4-tuple                    -> MIDI message (OSC 'm')
 
+No representation (refusal demanded): int outside int32, NUL inside a string
+or address, a string that has no UTF-8 encoding (lone surrogate), an empty
+address, unbalanced markers, a bundle time that is NaN, infinite or >= 2**32 s.
+Left open (refusal or the stated encoding): empty blob, finite float whose
+nearest float32 is an infinity, nested bundle earlier than its parent.
+
+`exp_typed_message` / `exp_raw_bundle` describe the plain builders of
+`_osclib` (explicit argument types, raw 64-bit timetags) without the client
+coercions.
+
 `exp_message` / `exp_bundle` build the *expected decoded structure* (the shape
 `osc10.decode` returns) in which three kinds of placeholder may occur:
 
@@ -86,18 +96,54 @@ class Verdict:
                           if r.startswith('refuse:')))
 
 
+def timetag_representable(lat):
+    """Can the latency be carried by a 64-bit fixed point timetag at all?
+    (NaN, infinities and 2**32 seconds or more cannot.)"""
+    if lat is None:
+        return True
+    if isinstance(lat, float) and (math.isnan(lat) or math.isinf(lat)):
+        return False
+    return lat < TWO32
+
+
+def is_dyadic(lat):
+    """lat * 2**32 is an integer computed without rounding."""
+    x = float(lat) * TWO32
+    return x == int(x) and abs(x) < 2 ** 53
+
+
 def exp_timetag(lat):
     """Non-real-time mode, outside routines: absolute from zero.  None or a
     negative latency means "immediately": tag 1 (OSC) or 0 (time zero of the
-    score) - don't-care here, C07 decides."""
+    score) - don't-care here, C07 decides.  Latencies that are not a multiple
+    of 2**-32 s: the statement does not fix the rounding, +-2 units (the C07
+    tolerance) are accepted."""
     if lat is None or lat < 0:
         return Alt(0, 1)
-    return int(lat * TWO32)        # exact for dyadic latencies
+    if not timetag_representable(lat):
+        return ANY
+    t = int(lat * TWO32)
+    if is_dyadic(lat):
+        return t                   # exact
+    return Alt(*[x for x in (t, t - 1, t + 1, t - 2, t + 2)
+                 if 0 <= x < 2 ** 64])
+
+
+def utf8_encodable(s):
+    try:
+        s.encode('utf-8')
+        return True
+    except UnicodeEncodeError:        # lone surrogates
+        return False
 
 
 def exp_message(msg, vd):
     """Expected decoded structure of the message-shaped list `msg`."""
     addr = msg[0]
+    if addr == '':
+        vd.must_refuse('empty-address')
+    elif not utf8_encodable(addr) or '\x00' in addr:
+        vd.must_refuse('unencodable-address')
     toks = []                      # (tag, expected value) / ('[',) / (']',)
     for a in msg[1:]:
         if a is None or a is False:
@@ -111,13 +157,17 @@ def exp_message(msg, vd):
         elif isinstance(a, float):
             if math.isinf(a) or math.isnan(a):
                 toks.append(('f', a))
-            elif abs(a) > osc10.FLOAT32_MAX:
-                # "floats to 32 bits": IEEE rounding gives +-inf, refusing is
-                # the other reading of "cannot be represented".
-                vd.may_refuse('float32-range')
-                toks.append(('f', math.copysign(math.inf, a)))
             else:
-                toks.append(('f', osc10.float32(a)))
+                try:
+                    toks.append(('f', osc10.float32(a)))
+                except osc10.OscError:
+                    # The nearest float32 is an infinity.  "floats to 32
+                    # bits": IEEE rounding gives +-inf, refusing is the other
+                    # reading of "cannot be represented".  (Values just above
+                    # the largest float32 that still round to it are
+                    # representable.)
+                    vd.may_refuse('float32-range')
+                    toks.append(('f', math.copysign(math.inf, a)))
         elif isinstance(a, str):
             if a == '[':
                 toks.append(('[',))
@@ -126,6 +176,8 @@ def exp_message(msg, vd):
             else:
                 if '\x00' in a:
                     vd.must_refuse('nul-in-string')
+                elif not utf8_encodable(a):
+                    vd.must_refuse('unencodable-string')
                 toks.append(('s', a))
         elif isinstance(a, (bytes, bytearray, memoryview)):
             if len(a) == 0:
@@ -168,6 +220,8 @@ def exp_message(msg, vd):
 def exp_bundle(bndl, vd):
     """Expected decoded structure of the bundle-shaped list `bndl`."""
     lat = bndl[0]
+    if not timetag_representable(lat):
+        vd.must_refuse('timetag-range')
     elements = []
     for e in bndl[1:]:
         if isinstance(e[0], str):
@@ -179,6 +233,109 @@ def exp_bundle(bndl, vd):
             elements.append(exp_bundle(e, vd))
     return {'type': 'bundle', 'timetag': exp_timetag(lat),
             'elements': elements}
+
+
+def exp_typed_message(addr, targs, vd):
+    """Expected decoded structure of a message built with the plain OSC
+    builder (no client coercions): `targs` is a list of [value, type] with
+    type None (inferred: str s, bytes b, int i, float f, bool T/F, 4-tuple m,
+    list -> array of inferred items) or one of 'i' 'f' 'd' 's' 'b' 'r' 'm'.
+    Booleans: the statement documents True -> 1 / False -> 0 for the client
+    and OSC 1.0 has the data-less tags T / F; both are accepted (all booleans
+    of one message the same way)."""
+    if addr == '':
+        vd.must_refuse('empty-address')
+
+    def toks_of(value, typ, bool_as_int):
+        if typ is None:
+            if isinstance(value, list):
+                out = [('[',)]
+                for v in value:
+                    out += toks_of(v, None, bool_as_int)
+                return out + [(']',)]
+            if isinstance(value, bool):
+                if bool_as_int:
+                    return [('i', int(value))]
+                return [('T' if value else 'F', value)]
+            if isinstance(value, int):
+                typ = 'i'
+            elif isinstance(value, float):
+                typ = 'f'
+            elif isinstance(value, str):
+                typ = 's'
+            elif isinstance(value, (bytes, bytearray, memoryview)):
+                typ = 'b'
+            elif isinstance(value, tuple):
+                typ = 'm'
+            else:
+                raise ValueError(f'value outside the alphabet: {value!r}')
+        if typ == 'i':
+            if not osc10.INT32_MIN <= value <= osc10.INT32_MAX:
+                vd.must_refuse('int32-range')
+            return [('i', value)]
+        if typ == 'f':
+            try:
+                return [('f', osc10.float32(value))]
+            except osc10.OscError:
+                vd.may_refuse('float32-range')
+                return [('f', math.copysign(math.inf, value))]
+        if typ == 'd':
+            return [('d', float(value))]
+        if typ == 'r':
+            if not 0 <= value < TWO32:
+                vd.must_refuse('rgba-range')
+            return [('r', value)]
+        if typ == 's':
+            if '\x00' in value:
+                vd.must_refuse('nul-in-string')
+            elif not utf8_encodable(value):
+                vd.must_refuse('unencodable-string')
+            return [('s', value)]
+        if typ == 'b':
+            if len(value) == 0:
+                vd.may_refuse('empty-blob')
+            return [('b', bytes(value))]
+        if typ == 'm':
+            return [('m', tuple(value))]
+        raise ValueError(f'type outside the alphabet: {typ!r}')
+
+    def struct_of(bool_as_int):
+        toks = []
+        for value, typ in targs:
+            toks += toks_of(value, typ, bool_as_int)
+        args = []
+        stack = [args]
+        for t in toks:
+            if t[0] == '[':
+                new = []
+                stack[-1].append(new)
+                stack.append(new)
+            elif t[0] == ']':
+                stack.pop()
+            else:
+                stack[-1].append(t[1])
+        return {'type': 'message', 'address': addr,
+                'tags': ''.join(t[0] for t in toks), 'args': args}
+
+    a, b = struct_of(False), struct_of(True)
+    return a if a == b else Alt(a, b)
+
+
+def exp_raw_bundle(bndl, vd):
+    """Expected decoded structure of a bundle built with the plain OSC bundle
+    builder: [timetag as uint64, element, ...], elements being plain message
+    lists [addr, value, ...] (inferred types) or such bundles."""
+    tt = bndl[0]
+    if not 0 <= tt < 2 ** 64:
+        vd.must_refuse('timetag-range')
+    elements = []
+    for e in bndl[1:]:
+        if isinstance(e[0], str):
+            elements.append(exp_typed_message(e[0], [[v, None] for v in e[1:]],
+                                              vd))
+        else:
+            elements.append(exp_raw_bundle(e, vd))
+    return {'type': 'bundle', 'timetag': tt, 'elements': elements}
 
 
 def short(x, n=120):
@@ -305,6 +462,45 @@ def selftest():
     assert match(e, osc10.decode(osc10.encode_bundle(5, [enc('/x')])))
     e['timetag'] = ANY
     assert match(e, osc10.decode(osc10.encode_bundle(5, [enc('/x')]))) is None
+    # Range edge of float32, unencodable strings, empty address, timetags.
+    for m, status, why in (
+            (['/a', 3.4028235e38], ACCEPT, []),
+            (['/a', 3.4028236e38], EITHER, []),
+            (['/a', '\ud800'], REFUSE, ['unencodable-string']),
+            (['', 1], REFUSE, ['empty-address']),
+            (['/a', [4294967296, ['/x']]], REFUSE, ['timetag-range']),
+            (['/a', [float('nan'), ['/x']]], REFUSE, ['timetag-range']),
+            (['/a', [0.1, ['/x']]], ACCEPT, [])):
+        v = Verdict()
+        exp_message(m, v)
+        assert (v.status, v.refusal_reasons()) == (status, why), (m, v.status)
+    v = Verdict()
+    e = exp_bundle([0.1, ['/x']], v)
+    for tt, ok in ((429496729, True), (429496731, True), (429496732, False)):
+        w = osc10.encode_bundle(tt, [enc('/x')])
+        assert (match(e, osc10.decode(w)) is None) == ok
+    # Plain builder: typed arguments, arrays, booleans either way.
+    v = Verdict()
+    e = exp_typed_message('/t', [[0.1, 'd'], [16909060, 'r'], [True, None],
+                                 [[1, ['a']], None]], v)
+    assert v.status == ACCEPT
+    for w, ok in (
+            (enc('/t', [T('d', 0.1), T('r', 16909060), True, [1, ['a']]]), 1),
+            (enc('/t', [T('d', 0.1), T('r', 16909060), 1, [1, ['a']]]), 1),
+            (enc('/t', [T('f', 0.1), T('r', 16909060), 1, [1, ['a']]]), 0),
+            (enc('/t', [T('d', 0.1), T('i', 16909060), 1, [1, ['a']]]), 0)):
+        assert (match(e, osc10.decode(w)) is None) == bool(ok)
+    v = Verdict()
+    exp_typed_message('/t', [[-1, 'r']], v)
+    assert v.refusal_reasons() == ['rgba-range']
+    v = Verdict()
+    e = exp_raw_bundle([2 ** 64 - 1, ['/x', 1], [2 ** 63, ['/y']]], v)
+    assert v.status == ACCEPT and match(e, osc10.decode(osc10.encode_bundle(
+        2 ** 64 - 1, [enc('/x', [1]), osc10.encode_bundle(
+            2 ** 63, [enc('/y')])]))) is None
+    v = Verdict()
+    exp_raw_bundle([2 ** 64], v)
+    assert v.status == REFUSE
     return True
 
 
